@@ -5,10 +5,12 @@ import Asn1Model.Schema
 import Asn1Model.Uper
 import Asn1Model.Typing
 import Asn1Model.Oer
+import Asn1Model.Per
 import Asn1Model.OerTyping
 import Asn1Model.BerFraming
 import Asn1Model.Constraints
 import Asn1Model.TypeCheck
+import Asn1Model.Cache
 /-
   Line protocol: one request per line `op<TAB>arg...`, args are S-expressions.
   One answer line per request.  Everything printed is canonical.
@@ -188,6 +190,10 @@ def opEnc (args : List Sx) : String :=
         match Oer.encode ty val with
         | .ok bs => "ok " ++ (if bs.isEmpty then "-" else toHex bs)
         | .error e => "err " ++ uperErr e
+      | "per" =>
+        match Per.encode ty val with
+        | .ok bs => "ok " ++ (if bs.isEmpty then "-" else toHex bs)
+        | .error e => "err " ++ uperErr e
       | _ => "bad-codec"
     | none, _ => "bad-type"
     | _, none => "bad-value"
@@ -206,6 +212,10 @@ def opDec (args : List Sx) : String :=
         | .error e => "err " ++ uperErr e
       | "oer" =>
         match Oer.decode ty bs with
+        | .ok v => "ok " ++ valToStr v
+        | .error e => "err " ++ uperErr e
+      | "per" =>
+        match Per.decode ty bs with
         | .ok v => "ok " ++ valToStr v
         | .error e => "err " ++ uperErr e
       | _ => "bad-codec"
@@ -264,6 +274,16 @@ def opTcheck (args : List Sx) : String :=
        | none => "ok"
        | some p => "err " ++ TypeCheck.locationStr "A" p)
     | _, _ => "bad-args"
+  | _ => "bad-args"
+
+/-- `cachekey <codec-hex> <opts-hex> (<file-hex> ...)` : the key bytes the cache uses -/
+def opCacheKey (args : List Sx) : String :=
+  match args with
+  | [.atom c, .atom o, .list fs] =>
+    let hx (h : String) := fromHex (if h == "-" then "" else h)
+    match hx c, hx o, fs.mapM (fun (f : Sx) => match f with | Sx.atom h => hx h | _ => none) with
+    | some cb, some ob, some fbs => toHex (Cache.key ⟨cb, ob, fbs⟩)
+    | _, _, _ => "bad-hex"
   | _ => "bad-args"
 
 def b2s (b : Bool) : String := if b then "T" else "F"
